@@ -21,7 +21,7 @@ if ! (cd "$scr" && go build ./... >"$scr/build.log" 2>&1); then echo "$id-$x: do
 (cd "$scr/$demo_dir" && timeout 900 bash -c "$demo_cmd" >"$scr/patched.log" 2>&1); patched=$?
 # 4. suite still passes (demo file removed)
 rm -f "$scr/$demo_dir/zz_seed_demo_test.go"
-"$V/tools/baseline.py" "$scr" >"$scr/base.log" 2>&1; base=$?
+unshare -n bash -c "ip link set lo up 2>/dev/null; \"$V/tools/baseline.py\" \"$scr\"" >"$scr/base.log" 2>&1; base=$?   # own network namespace: the suite binds port 1234
 status="REJECTED"
 if [ $clean -eq 0 ] && [ $patched -ne 0 ] && [ $base -eq 0 ]; then status="CONFIRMED"; fi
 echo "$id-$x: $status (demo clean exit=$clean, demo patched exit=$patched, suite exit=$base: $(tail -1 "$scr/base.log" | head -c 80))"
